@@ -381,8 +381,10 @@ static inline void ABTI_ythread_suspend_to(ABTI_xstream **pp_local_xstream,
     ABTI_event_ythread_suspend(*pp_local_xstream, p_self,
                                p_self->thread.p_parent, sync_event_type,
                                p_sync);
+    ABTI_VERIF_BEGIN();
     ABTD_atomic_release_store_int(&p_target->thread.state,
                                   ABT_THREAD_STATE_RUNNING);
+    ABTI_VERIF_END(ABTI_VEV_STATE, &p_target->thread, ABT_THREAD_STATE_RUNNING, 0);
     ABTI_ythread_switch_to_sibling_internal(pp_local_xstream, p_self, p_target,
                                             ABTI_ythread_callback_suspend,
                                             (void *)p_self);
